@@ -22,7 +22,8 @@ RULE = (
     'random code points with random deletechars: clean(s, D) == "".join(m(c) for c in s if m(c) not in D) with '
     'm = single character clean (order and count kept), no character of D in the result, '
     'clean(clean(s, D), D) == clean(s, D).  (C) non-string inputs (common.non_strings() + hostile objects): '
-    'returns a str or raises InvalidFormat, nothing else.  (D) all modules x corpus valid numbers (all of them in '
+    'returns a str or raises InvalidFormat, nothing else.  (D) all modules except the eight generic algorithm '
+    'modules of common.GENERIC_MODULES (they never call clean(); excluded by the integrator) x corpus valid numbers (all of them in '
     'the thorough tier) x every position whose ASCII character has look-alikes in stdnum.util._char_map x every '
     'such look-alike, plus whole-number respellings and ASCII separators inserted at accepted positions and then '
     'respelled: validate(look-alike spelling) must equal ("ok", validate(ASCII spelling)).  Non-trivial: (A) code '
@@ -239,7 +240,11 @@ def _worker_mod(task):
     valid = G.part_slice(G.diverse(common.valid_numbers(modname), 10 ** 6)[:P['numbers']], part, nparts)
     samples = []
 
+    thin = G.Thinner(sc, tier)
+
     def check(gen, cls, x, y):
+        if thin.skip(gen):
+            return
         oy, viol = compare_spellings(mod, x, y)
         st.record(gen, (x, y), 'ok' if oy[0] == 'ok' else '%s:%s' % (oy[0], oy[1]))
         if viol is not None:
